@@ -9,6 +9,7 @@ import (
 	"os"
 	"path/filepath"
 	"strings"
+	"syscall"
 
 	"github.com/emersion/go-webdav"
 	"github.com/emersion/go-webdav/verifharness/fw"
@@ -63,7 +64,7 @@ func (b *breakingBody) Read(p []byte) (int, error) {
 	return n, nil
 }
 
-var linkNames = []string{"/ln-dir", "/ln-file", "/ln-abs-dir", "/ln-abs-file", "/dangling", "/dangling-deep", "/dangling-abs", "/loop", "/loop2a", "/ln-sock",
+var linkNames = []string{"/ln-dir", "/ln-file", "/ln-abs-dir", "/ln-abs-file", "/dangling", "/dangling-deep", "/dangling-abs", "/loop", "/loop2a", "/ln-sock", "/ln-dev",
 	"/album", "/album/latest", "/album/cover", "/dir/ln-up", "/ln-outside", "/ln-proc"}
 
 func buildLinkTree(root string) error {
@@ -77,6 +78,13 @@ func buildLinkTree(root string) error {
 			}
 			l.Close()
 		}
+	}
+	// a character device of the harness's own (major 1, minor 3: what
+	// /dev/null is), so that a server that removes or replaces what a link
+	// points to harms nothing; where it cannot be made the link dangles
+	if dev := filepath.Join(filepath.Dir(root), "special.null"); !isCharDevice(dev) {
+		os.Remove(dev)
+		syscall.Mknod(dev, syscall.S_IFCHR|0666, 1<<8|3)
 	}
 	for _, d := range []string{"dir", "dir/sub", "dir/emptysub", "album", "empty", "new-old/deep", "copy.d", "empty2", "moved~"} {
 		if err := os.MkdirAll(filepath.Join(root, d), 0755); err != nil {
@@ -98,6 +106,7 @@ func buildLinkTree(root string) error {
 		// /dev/null: the server under test runs with the harness's privileges,
 		// and a broken one may remove or overwrite what a link points to)
 		{"ln-sock", filepath.Join(filepath.Dir(root), "special.sock")},
+		{"ln-dev", filepath.Join(filepath.Dir(root), "special.null")},
 		{"album/latest", "../dir"}, {"album/cover", "photo.jpg"}, {"dir/ln-up", ".."}, {"ln-outside", filepath.Dir(root)},
 		// another file system, one that refuses to create anything (ENOENT on
 		// create, EXDEV on rename); only names that do not exist there are used
@@ -109,6 +118,11 @@ func buildLinkTree(root string) error {
 		}
 	}
 	return nil
+}
+
+func isCharDevice(p string) bool {
+	fi, err := os.Lstat(p)
+	return err == nil && fi.Mode()&os.ModeCharDevice != 0
 }
 
 func isSocket(p string) bool {
